@@ -1150,7 +1150,5 @@ def run_rules(ctx: Ctx, prop: str) -> None:
             if k in reported:
                 continue
             reported.add(k)
-            ctx.check(rid, f"{e.module}:{v.cls}", construct, False, f"{v.what}. Shortest input word ({tag}): {' ; '.join(v.word)}", None, detail={"input_word": v.word, "run": tag})
-            ctx.findings[-1].file = ctx.repo.relpath(e.module)
-            ctx.findings[-1].line = v.line
+            ctx.check(rid, f"{e.module}:{v.cls}", construct, False, f"{v.what}. Shortest input word ({tag}): {' ; '.join(v.word)}", None, detail={"input_word": v.word, "run": tag}, at=(ctx.repo.relpath(e.module), v.line))
     ctx.assume("typestate: queue-full suspension and interleavings in which a suspended handle() resumes after another task closed the stream are not modelled (one input is processed at a time); library objects are opaque")
